@@ -80,6 +80,7 @@ func runConc(src sim.Source, o Opts, res *Result, plan concPlan) {
 		})
 	}
 	out := s.Run()
+	res.Leaked = res.Leaked || s.Leaked()
 	res.Steps = s.Steps
 	res.Hash = s.Hash()
 	res.add("context_switches", s.Switches)
